@@ -20,7 +20,7 @@ PLAN = {
     "C12": {"mc": ["MC_Names"], "gen": [("Gen_Names", 300, 6000, 32, False)]},
     "C13": {"mc": ["MC_Seek"], "impl": ["MC_ImplSnap"], "impl_thorough": ["MC_ImplSnap_thorough", "MC_ImplSeek"], "gen": [("Gen_Seek", 120, 4000, 32, True), ("Gen_Snap", 80, 4000, 30, True), ("BFS_Snap", 0, 60000, 8, False)]},
     "C14": {"mc": ["MC_Timing"], "gen": [("Gen_Timing", 260, 6000, 30, True)]},
-    "C15": {"mc": ["MC_Prune"], "gen": [("Gen_Prune", 260, 6000, 34, True)]},
+    "C15": {"mc": ["MC_Prune"], "gen": [("Gen_Prune", 200, 5000, 34, True), ("Gen_Names", 60, 1500, 32, True)], "converge": True},
     # C09: every mutating step of the generated histories is re-run with the k-th
     # database interaction failing (k = 1, 2, ... incl. BEGIN and COMMIT), then with
     # the request cancelled at the k-th interaction
@@ -153,7 +153,7 @@ def _run(ctx, replay):
                 # fault enumeration re-runs every step many times: a coarser time unit keeps
                 # the nominal clock ahead of the wall clock
                 scen.append({"id": "%s-%d-%d" % (mod, seed, i), "unit_ms": 20000 if plan.get("fault") else unit,
-                             "steps": h, "drain": drain, "family": mod})
+                             "steps": h, "drain": drain, "family": mod, "converge": bool(plan.get("converge")) and not mod.startswith("BFS_")})
     # (2b) refinement check of the mechanism model against the contract: every design-level
     # counterexample becomes a scenario; only what the REAL code does with it counts
     impl_stats = []
